@@ -79,7 +79,7 @@ impl PrefixEngine {
         v
     }
 
-    fn check(&self, cfg: Cfg, r: &Runner, only: Option<usize>) -> (Option<Failure>, u64, usize) {
+    pub(crate) fn check(&self, cfg: Cfg, r: &Runner, only: Option<usize>) -> (Option<Failure>, u64, usize) {
         let p = tmp_file("c09");
         let fail = |kind: &str, k: usize, d: String| Failure { prop: "C09".into(), kind: kind.into(), step: k, detail: d };
         // the target path already holds an older, longer file (a previous checkpoint): save()
